@@ -28,13 +28,32 @@ class D(L, R):
     pass
 
 
-for _c in (Base, L, R, D):
+# multiple inheritance over UNRELATED classes (round 5): with these, "more specific than" on parameter lists is not
+# transitive - E is an LL, an L and an R; L || R, R || LL, LL < L;  G is a D and a U;  U is unrelated to all of Base
+class LL(L):
+    pass
+
+
+class E(LL, R):
+    pass
+
+
+class U(object):
+    pass
+
+
+class G(D, U):
+    pass
+
+
+for _c in (Base, L, R, D, LL, E, U, G):
     _c.__repr__ = lambda self: '<%s>' % type(self).__name__
 
 LATTICE = dict(Base=Base, L=L, R=R, D=D, int=int, str=str, object=object, NoneType=type(None), bool=bool,
-               float=float)
+               float=float, LL=LL, E=E, U=U, G=G)
 
-CORPUS = [Base(), L(), R(), D(), D(), 0, 7, True, 'a', 'bb', 2.5, (1, 2)]     # tag = index
+# tag = index; 0..11 are what every generator written before round 5 draws from
+CORPUS = [Base(), L(), R(), D(), D(), 0, 7, True, 'a', 'bb', 2.5, (1, 2), E(), G(), LL(), U()]
 CONSTS = [1, 0, 'a', 'k', True, False, None, 2.5, 'abc']                      # tag = 1000 + index
 
 
@@ -115,6 +134,10 @@ class Tables:
         for i, x in enumerate(CONSTS):
             if type(x) is type(v) and x == v:
                 return 1000 + i
+        if type(v) is tuple:            # an entry point that converts its input hands over an equal copy
+            for i, x in enumerate(CORPUS):
+                if type(x) is tuple and x == v:
+                    return i
         return 9999
 
     def val(self, v):
@@ -159,11 +182,51 @@ def warm_up():
     enc_type(yaqltypes.PythonType(object, True))
 
 
+REJECTED = (4, 9, 13)     # corpus indices a Picky type turns down when CONVERTING: the second D, 'bb', the G
+
+
+class Picky(yaqltypes.PythonType):
+    """a smart type in the style of a date / identifier / JSON string type: `check()` is PythonType's (the class of the
+    value), `convert()` validates the VALUE and raises ArgumentValueException for the ones it turns down - so a call
+    can pass resolution and fail in the chosen overload's argument conversion"""
+    __slots__ = tuple()
+
+    def convert(self, value, receiver, context, function_spec, engine, *args, **kwargs):
+        value = super().convert(value, receiver, context, function_spec, engine, *args, **kwargs)
+        if any(value is CORPUS[i] for i in REJECTED) or (type(value) is str and value == CORPUS[9]):
+            raise exceptions.ArgumentValueException()
+        return value
+
+
+def picky_rows(fds):
+    """for the model of the phase after choose_overload: [[fid, [positions], [keyword keys], star]] of the parameters
+    whose type validates in convert()"""
+    rows = []
+    for fid, fd in sorted(fds.items()):
+        ps, ks, star = [], [], False
+        for key, p in fd.parameters.items():
+            if isinstance(p.value_type, Picky):
+                if key == '*':
+                    star = True
+                elif p.position is not None:
+                    ps.append(p.position)
+                elif key != '**':
+                    ks.append(key)
+        if ps or ks or star:
+            rows.append([fid, ps, ks, star])
+    return rows
+
+
 def make_type(ts):
-    """ts: None (undeclared) | 'String' .. | ['py', clsname, nullable]"""
+    """ts: None (undeclared) | 'String' .. | ['py', clsname, nullable] | ['py', [clsname, ..], nullable] (a tuple of
+    classes, as `Number()` has) | ['picky', clsname, nullable] (a PythonType subclass whose convert() validates)"""
     if ts is None:
         return None
     if isinstance(ts, (list, tuple)):
+        if ts[0] == 'picky':        # ['picky', clsname, nullable]: the class decides check(), convert() validates the value
+            return Picky(LATTICE[ts[1]], ts[2])
+        if isinstance(ts[1], (list, tuple)):
+            return yaqltypes.PythonType(tuple(LATTICE[c] for c in ts[1]), ts[2])
         return yaqltypes.PythonType(LATTICE[ts[1]], ts[2])
     return TYPE_SPECS[ts]()
 
@@ -717,9 +780,21 @@ class ListContext(contexts.Context):
         return [fd for fd in order if fd in s], excl
 
 
+RELAY = {}     # 'body': what the function with the injected `yaql_interface` does when it is called next
+
+
+def relay(yaql_interface):
+    """a host function that gets the hidden `yaql_interface` parameter and makes calls through it"""
+    return RELAY['body'](yaql_interface)
+
+
+RELAY_NAME = '#relay'
+
+
 def _base_context():
     ctx = ROOT.create_child_context()
     ctx.register_function(tick, name='tick')
+    ctx.register_function(relay, name=RELAY_NAME)
     for i, v in enumerate(CORPUS):
         ctx['$v%d' % i] = v
     return ctx
@@ -899,7 +974,11 @@ class History:
            ['reg', i, fid, exclusive]              the prepared FunctionDefinition of overload fid (one object per fid)
            ['regc', i, fid, exclusive, did]        the Python CALLABLE of overload fid (one object per fid) is handed
                                                    to register_function; the definition made of it is `did`
-           ['del', i, did] | ['call', i, cspec, name]
+           ['del', i, did] | ['call', i, cspec, name] | ['call', i, cspec, name, via]
+           via: how the host makes the call - None: ctx(name, engine, receiver)(..); 'yi': through THE YaqlInterface of
+           context i (yi.name(..) / yi.on(receiver).name(..)); 'yid': through the interface derived last with on();
+           'yir': through an interface made with a receiver; 'inj': inside a host function, through the
+           `yaql_interface` it gets injected (consecutive 'inj' calls from one context share one invocation)
     defs: {fid: ospec}.  Definition ids: did = fid for prepared definitions."""
 
     def __init__(self, defs, cls=None):
@@ -918,6 +997,84 @@ class History:
         self.msteps = []        # the steps as the model is told them
         self.invalid = []
         self.table_fails = []
+        # the host entry point YaqlInterface: ONE interface per context, kept for the whole history, the interfaces
+        # derived from it with on() (the last one per context is kept alive too), one made WITH a receiver;
+        # value = (interface object, handle of the model)
+        self.yi = {}
+        self.derived = {}
+        self.yir = {}
+        self.n_yi = 0
+
+    # ---- calls through YaqlInterface (yi.name(..), yi.on(obj).name(..), the injected yaql_interface)
+    def _handle(self, step):
+        self.msteps.append(step)
+        self.n_yi += 1
+        return self.n_yi - 1
+
+    def _through(self, base, i, call, name, keep=True):
+        """the call made through the interface family of `base` = (interface, model handle): without receiver
+        through the interface itself, with one through base.on(receiver) - or through base itself when that IS
+        its receiver"""
+        obj, h = base
+        if call.recv is not utils.NO_VALUE and obj.sender is not call.recv:
+            obj, h = obj.on(call.recv), self._handle(dict(k='on', y=h, recv=T.val(call.recv)))
+            if keep:
+                self.derived[i] = (obj, h)
+        self.msteps.append(dict(k='ycall', y=h, name=name, call=call.enc()))
+        return lambda n, recv, args, kw: getattr(obj, n)(*args, **kw)
+
+    def _invoker(self, i, via, call, name):
+        """-> the `invoke` of run_real for this way of calling (and tells the model the same steps)"""
+        from yaql import yaql_interface
+        ctx = self.ctxs[i]
+        norecv = call.recv is utils.NO_VALUE
+        if via == 'yir' and not norecv:
+            if i not in self.yir:
+                self.yir[i] = (yaql_interface.YaqlInterface(ctx, ENGINE, call.recv),
+                               self._handle(dict(k='yi', i=i, recv=T.val(call.recv))))
+            return self._through(self.yir[i], i, call, name, keep=False)
+        if via == 'yid' and i in self.derived and not norecv:
+            return self._through(self.derived[i], i, call, name)
+        if via in ('yi', 'yid', 'yir'):
+            if i not in self.yi:
+                self.yi[i] = (yaql_interface.YaqlInterface(ctx, ENGINE), self._handle(dict(k='yi', i=i)))
+            return self._through(self.yi[i], i, call, name)
+        self.msteps.append(dict(k='call', i=i, name=name, call=call.enc()))
+        return None
+
+    def call_group(self, items):
+        """consecutive call steps [(step, BuiltCall)] from ONE context, all made inside one invocation of a host
+        function through the `yaql_interface` it gets injected -> [(real outcome, rules' outcome)]"""
+        i = items[0][0][1]
+        v = self.view(i)
+        out = []
+        injected = (None, self._handle(dict(k='inject', i=i)))
+
+        def body(yi):
+            base = (yi, injected[1])
+            for st, call in items:
+                invoke = self._through(base, i, call, st[3], keep=False)
+                real = run_real(v, call, st[3], invoke)
+                exp = spec_resolve(v, call, st[3], chain=self.chain(i, st[3]))
+                if 'id' in exp:
+                    exp['id'] = exp['id'].tag
+                out.append((real, exp))
+        RELAY['body'] = body
+        try:
+            self.ctxs[i](RELAY_NAME, ENGINE)()
+        except Exception as e:          # the host function itself could not be called / returned abnormally
+            failure = dict(log=[], err='host function with injected yaql_interface: ' + err_class(e))
+        else:
+            failure = dict(log=[], err='host function with injected yaql_interface did not run')
+        finally:
+            RELAY.pop('body', None)
+        for st, call in items[len(out):]:
+            self.msteps.append(dict(k='call', i=i, name=st[3], call=call.enc()))
+            exp = spec_resolve(v, call, st[3], chain=self.chain(i, st[3]))
+            if 'id' in exp:
+                exp['id'] = exp['id'].tag
+            out.append((dict(failure), exp))
+        return out
 
     def callable_of(self, fid):
         """ONE Python callable per overload spec: prepared definitions and register_function(<callable>) calls all
@@ -1025,13 +1182,15 @@ class History:
 
     def call(self, st, call):
         """a call step: (real outcome, what the written rules give for the family of this moment)"""
-        _, i, _, name = st
+        i, name = st[1], st[3]
+        via = st[4] if len(st) > 4 else None
+        if via == 'inj':
+            return self.call_group([(st, call)])[0]
         v = self.view(i)
-        real = run_real(v, call, name)
+        real = run_real(v, call, name, self._invoker(i, via, call, name))
         exp = spec_resolve(v, call, name, chain=self.chain(i, name))
         if 'id' in exp:
             exp['id'] = exp['id'].tag
-        self.msteps.append(dict(k='call', i=i, name=name, call=call.enc()))
         return real, exp
 
     def enc(self):
@@ -1223,13 +1382,18 @@ def _choose_overload(*a, **k):
 runner.choose_overload = _choose_overload
 
 
-def run_real(fam, call, name='f'):
+def run_real(fam, call, name='f', invoke=None):
+    """`invoke(name, receiver, args, kwargs)`: another host entry point that makes the same call (default: the
+    context itself, `ctx(name, engine, receiver)(*args, **kwargs)`)"""
     del LOG[:]
     del REC[:]
     PHASE['chosen'] = False
     PHASE['depth'] = 0
     try:
-        fam.ctx(name, ENGINE, call.recv)(*call.args, **dict(call.kw))
+        if invoke is None:
+            fam.ctx(name, ENGINE, call.recv)(*call.args, **dict(call.kw))
+        else:
+            invoke(name, call.recv, call.args, dict(call.kw))
     except Exception as e:
         if PHASE['chosen']:
             return dict(log=list(LOG), delegate_error=type(e).__name__)
@@ -1362,6 +1526,18 @@ def _more_specific(m1, m2):
     return any(_strict_sub(a, b) for a, b in pairs)
 
 
+def _nontransitive(ms):
+    """input statistic: three of the matches with a > b, b > c and NOT a > c (a, c incomparable)"""
+    for _, a in ms:
+        for _, b in ms:
+            if b is a or not _more_specific(a, b):
+                continue
+            for _, c in ms:
+                if c is not a and c is not b and _more_specific(b, c) and not _more_specific(a, c):
+                    return True
+    return False
+
+
 def _is_lazy(t):
     return isinstance(t, yaqltypes.LazyParameterType)
 
@@ -1446,9 +1622,10 @@ def _spec_resolve(fam, call, name, chain):
         if not ms:
             continue
         best = [fd for fd, m in ms if all(o is fd or _more_specific(m, om) for o, om in ms)]
+        nt = _nontransitive(ms) if len(ms) >= 3 else False
         if len(best) == 1:
-            return dict(id=best[0], log=log, nmapped=len(flat), nmatch=len(ms))
-        return dict(err='Ambiguous', log=log, nmapped=len(flat), nmatch=len(ms))
+            return dict(id=best[0], log=log, nmapped=len(flat), nmatch=len(ms), nontransitive=nt)
+        return dict(err='Ambiguous', log=log, nmapped=len(flat), nmatch=len(ms), nontransitive=nt)
     return dict(err='NoMatching', log=log, nmapped=len(flat))
 
 
